@@ -22,7 +22,7 @@ int main()
     {
         if (line.empty())
             continue;
-        vh::case_alarm(20);
+        vh::case_alarm(4);
         auto f = vh::fields(line);
         int cap = std::stoi(f["cap"]);
         open_heap h(cap);
